@@ -32,6 +32,16 @@ def run(ctx):
     ctx.rule("R1", "routing table: Post* -> StateReads::post, others -> pre; *Extern -> external reader, others -> reader given the solved predicate's contract")
     ctx.rule("R2", "request dataflow: key/count = components of pop_key_range_args, unmodified; external address = ContentAddress(u8_32_from_word_4(pop4)); state error wrapped by OpError::StateRead only")
 
+    if not getattr(ctx, "_src", None):
+        # the post view the Post* ops are pointed at: it answers through the overlay helper, which returns state errors unchanged
+        # (C03 R2/R7), and it exists when the op runs because the deferral scan is exact (C15 R2/R3)
+        from . import C03, C15
+        from .C19 import _Only, _OnlyKeys
+        ctx.rule("R5", "the post view answers through the overlay helper and propagates state errors (C03 R2/R7); deferral scan exact (C15 R2/R3)")
+        C03.r2(_OnlyKeys(ctx, "R2", "R5", r"view-|overlay"), prog)
+        C03.r7(_OnlyKeys(ctx, "R7", "R5", r"overlay"), prog)
+        C15.run(_Only(ctx, "R2", "R5"))
+        C15.run(_Only(ctx, "R3", "R5"))
     # operand readers fail only when a pop or the usize conversion fails: no further (spurious) rejection of a request
     for nm, want in [("pop_memory_address", [("<propagate error>", ["err(essential_vm::stack::Stack::pop(stack))"]),
                                              ("<propagate error>", ["ok(essential_vm::stack::Stack::pop(stack))", "err(int::try_from(essential_vm::stack::Stack::pop(stack)?))"]),
